@@ -5,6 +5,7 @@ package main
 import (
 	"fmt"
 	"strings"
+	"syscall"
 	"testing/synctest"
 	"time"
 	"unicode/utf8"
@@ -13,6 +14,7 @@ import (
 	lib "github.com/whawty/auth/store"
 	"github.com/whawty/auth/zzverif/simfs"
 	"github.com/whawty/auth/zzverif/simrt"
+	"github.com/whawty/auth/zzverif/simsignal"
 )
 
 func init() { register("C12", propC12) }
@@ -214,6 +216,26 @@ func propC12(r *Run) {
 		var trace []string
 		for i := 0; i < nlogins; i++ {
 			time.Sleep([]time.Duration{0, time.Second, 3 * time.Second, time.Hour}[r.Choose("clock", 4)])
+			if mode != "remote" && len(cfg.Sets) > 1 && r.Choose("default-switched-by-reload", 12) == 0 {
+				// the operator switches the default to another (already configured) parameter set and
+				// reloads: from now on "upgradeable" and every rewrite refer to the new default
+				for _, s := range cfg.Sets {
+					if s.ID != cfg.Default {
+						cfg.Default = s.ID
+						break
+					}
+				}
+				def = sets[cfg.Default]
+				w.fs.Put(a.cfgPath, []byte(cfg.YAML()), 0o600)
+				simsignal.Raise(syscall.SIGHUP, -1)
+				if wedge := w.settle(drainExtra); wedge != "" {
+					r.FailOther("C10", wedgeSignature(wedge), "%s", wedge)
+					return
+				}
+				trace = append(trace, fmt.Sprintf("reload: default is now %d", cfg.Default))
+				r.Logf("reload: default switched to %d", cfg.Default)
+				r.Count("fault:sighup-reload")
+			}
 			if mode == "remote" && r.Choose("master-changes", 6) == 0 {
 				// the master's health changes over time (down, back up, ...)
 				w.rtMu.Lock()
